@@ -46,3 +46,17 @@ def refines(ctx, kind):
         raise fw.Machinery("vacuity: the negative control of the refinement check was not violated")
     out.append({"cfg": "ExecRefinesNeg.cfg", "violated_as_expected": True})
     return out
+
+
+def gen_basic(ctx):
+    """The generator models of the basic schedules composed with Executor/SchedAPI: every
+    interleaving of next() and finalize(-1..3) up to 12 calls, no clause may fail."""
+    out = []
+    for cls in ("SingleMemory", "SingleDiskCopy", "SingleDiskMove", "None"):
+        r = tlc.run("GenBasicFree", cfg=f"GenBasicFree_{cls}.cfg", timeout=600, workers=4)
+        ctx.add_run("GenBasicFree/" + cls, r)
+        if not r["ok"]:
+            raise fw.Machinery(f"generator model {cls} fails a clause at design level: "
+                               f"{tlc.invariant_violated(r)} {r['error']}")
+        out.append({"model": cls, "states": r["distinct"], "all_clauses_hold": True})
+    return out
